@@ -30,16 +30,19 @@ def check(repo, res, tier):
     res.s_clauses = ["S1 clocks", "S2 rexp parameterisation", "S3 argmin/increment"]
     res.n_clauses = ["the sampling law itself / acceptance regions / closed-form comparisons: statistical statements about runs",
                      "quality of numpy's exponential sampler"]
-    ctx = S.Ctx(repo)
-    S.check_newjumptimes(ctx, res)
-    S.check_first_reaction(ctx, res, rule_step="R-FR", rule_fr="R-FR")
-    S.check_checkjump(ctx, res)
+    from ..rules import stepx as X
+    res.rule("R-WALK", "exact-mode paths equal the first-reaction walk: one exponential clock (mean 1/rate) per positive-rate event, the earliest fires, time advances by that clock")
+    X.check_newjumptimes(repo, res)
+    X.check_checkjump(repo, res)
+    n = X.check_walks(repo, res, only_exact=True)
+    res.floor("exact walk scenarios interpreted", n, 7)
+    cls_ = M.sim_class(repo)
     # S4: the law is judged on the state *at a requested time*; for exact runs that is the last-event look-up
     from . import C15
     res.rule("R-LOOKUP", "the state reported at time t is the state of the path at the last event time <= t")
     res.rule("R-GRIDIO", "exact runs on a grid route states through the last-event look-up with (states, times, grid)")
-    C15._check_lookup(repo, res, ctx.cls)
-    C15._check_gridio(repo, res, ctx.cls)
+    C15._check_lookup(repo, res, cls_)
+    C15._check_gridio(repo, res, cls_)
     # rexp
     f = repo.func(M.M_DISTN, "rexp")
     ps = f.params
